@@ -41,6 +41,8 @@ CASE_SCALE = {
     "C07": (1, 3, r"^(bfgs|newton|rprop|rprop\.constrained|gradientDescent|adam|saga|lineSearch|blahut)$"),
     "C08": (1, 3, r"\.random$"),
     "C09": (1, 3, r"^(alias\.)?random$"),
+    "C10": (2, 8, r"^(nested|vector-slice)/"),
+    "C11": (2, 6, r"^(vector|matrix)/"),
     "C13": (1, 2, r"\.sweep$"),
     "C15": (3, 12, r"^(hmm|hmm\.matrix|hmm\.bw|hmm\.variants|mixture)$"),
     "C16": (3, 10, r"^(closed|numeric|em)\b"),
